@@ -1,6 +1,6 @@
 """C13 -- assignment, destructuring and augmented assignment store what Python stores."""
 import itertools, json, sys
-from common import Check, fresh_oneliner
+from common import Check, fresh_oneliner, StepLimit
 import gen_prog, lower_common, par
 
 OL = None
@@ -154,10 +154,11 @@ def run(code, mode):
     log = []
     g = {'L': lambda *a: log.append(repr(a))}
     try:
-        if mode == 'exec':
-            exec(compile(code, '<s>', 'exec'), g)
-        else:
-            eval(compile(code, '<o>', 'eval'), g)
+        with StepLimit():
+            if mode == 'exec':
+                exec(compile(code, '<s>', 'exec'), g)
+            else:
+                eval(compile(code, '<o>', 'eval'), g)
     except BaseException as e:
         log.append('EXC ' + type(e).__name__)
     return log
